@@ -22,8 +22,23 @@ ASSUMPTIONS = ['signals: samples on the half-unit grid at fixed time sets, value
 PAST_U = ('not', 'once', 'historically')
 PAST_B = ('and', 'or', 'implies', 'iff', 'xor', 'since')
 
-TIMES_X = ((0.0, 0.5, 1.5, 2.0), (0.0, 1.0, 2.0, 3.0))
-TIMES_Y = ((0.0, 1.0, 2.0), (0.0, 1.5, 2.0))
+# the third time set of each variable starts at t0 = 1 (a trace that does not start at time 0)
+TIMES_X = ((0.0, 0.5, 1.5, 2.0), (0.0, 1.0, 2.0, 3.0), (1.0, 2.0, 2.5, 3.5))
+TIMES_Y = ((0.0, 1.0, 2.0), (0.0, 1.5, 2.0), (1.0, 2.5, 3.5))
+
+
+def site(case):
+    """open finding (online analogue of site:C04-nonzero-start-bounded): data set starting at t0 > 0 and a bounded temporal operator"""
+    try:
+        f = F.from_json(case['formula'])
+        t0 = min(s[0][0] for s in case['signals'].values())
+    except Exception:
+        return None
+    # only where the precise description of the defect (vf/dref.evaluate_shifted) is not available - i.e. after pastify();
+    # everywhere else ScheduleModel itself separates the documented behaviour from any other deviation
+    if t0 > 0 and case.get('pastify') and any(F.interval(g) is not None for g in F.subforms(f)):
+        return 'C05-nonzero-start-bounded'
+    return None
 
 
 class ScheduleModel(object):
@@ -41,6 +56,15 @@ class ScheduleModel(object):
         self.ref = dict(zip(self.times, dref.evaluate(f, signals, self.times, selfcheck=True)))
         self.nontrivial = 0
         self.outputs = set()
+        # data sets that start at t0 > 0: the unrepaired monitor is documented (open finding) to behave like the shifted-start
+        # variant; it is used to tell that defect apart from every other deviation
+        self.variant = None
+        self.known_hits = 0
+        if self.t0 > 0 and not pastify and any(F.interval(g) is not None for g in F.subforms(f)):
+            try:
+                self.variant = dict(zip(self.times, dref.evaluate_shifted(f, signals, self.times)))
+            except ValueError:
+                self.variant = None
 
     def fresh(self):
         s = impl.build('ct_on', self.text, self.vs, pastify=self.pastify)
@@ -103,7 +127,12 @@ class ScheduleModel(object):
             return None
         r = self.ref[tt]
         if not refsem.same(v, r):
-            return 'output at t=%r is %r, dense reference at t%s is %r' % (t, v, '-%s' % self.h if self.h else '', r)
+            if self.variant is not None and self.variant.get(tt) is not None and refsem.same(v, self.variant[tt]):
+                self.known_hits += 1      # exactly the documented missing-prefix behaviour: counted as known finding, exploration goes on
+                return None
+            return 'output at t=%r is %r, dense reference at t%s is %r%s' % (
+                t, v, '-%s' % self.h if self.h else '', r,
+                '' if self.variant is None else ' (and the documented missing-prefix behaviour would give %r)' % (self.variant.get(tt),))
         self._compared = True
         return None
 
@@ -142,15 +171,19 @@ def signal_sets(nvars, tier):
     out = []
     if nvars == 1:
         for ts in TIMES_X:
-            for vals in itertools.product(F.V2, repeat=len(ts)):
-                out.append({'x': tuple(zip(ts, vals))})
-        return out[::5] if quick else out
+            sets = [{'x': tuple(zip(ts, vals))} for vals in itertools.product(F.V2, repeat=len(ts))]
+            out += sets[3::8] if quick else sets
+        return out
     for tx in TIMES_X:
         for ty in TIMES_Y:
+            if tx[0] != ty[0]:
+                continue    # all variables of one data set start at the same time
+            sets = []
             for vx in itertools.product(F.V2, repeat=len(tx)):
                 for vy in itertools.product(F.V2, repeat=len(ty)):
-                    out.append({'x': tuple(zip(tx, vx)), 'y': tuple(zip(ty, vy))})
-    return out[5::150] if quick else out[::7]
+                    sets.append({'x': tuple(zip(tx, vx)), 'y': tuple(zip(ty, vy))})
+            out += sets[37::128] if quick else sets[::7]
+    return out
 
 
 def shards(tier):
@@ -181,6 +214,8 @@ def run_shard(shard, tier, res):
             res.traces += st.executions
             res.evaluations += st.transitions
             res.nontrivial += m.nontrivial
+            if m.known_hits:
+                res.known['site:C05-nonzero-start-bounded'] += m.known_hits
             res.flags['fixpoint' if st.fixpoint else 'no_fixpoint'] += 1
             res.flags['merges_validated'] += st.merges_validated
             if st.canon_divergence:
